@@ -19,6 +19,14 @@ bytes for one group of cases (restored afterwards).  That is configuration of a 
 test does the same -, not a patch of the code under test; the content clauses are then judged against the lines that survive
 the documented truncation.
 
+Redaction x filtering: on a host the same cleaning pass also applies the customer's exclude patterns (file-content
+redaction), which REMOVE lines.  The statement does not mention redaction; the cleaner documents it as a must-be-done step
+that comes before the filter (module docstring, the numbered steps of clean_content, "Clean (Redact, Filter, and Obfuscate)"
+in ContentProvider._clean_content).  A group of cases therefore hands exclude patterns (plain and regex form) to the public
+Cleaner constructor and judges the cleaned content - cleaner allow-list and the file written by a host collection - by the
+unchanged clauses against the lines the redaction leaves: a removed line is not part of the content, cannot be "the last
+line matching a filter" and uses no match budget up (the budget clause has always counted KEPT lines only).
+
 ``insights.tests`` is never imported (it monkey-patches filters.add_filter).
 """
 import collections
@@ -58,7 +66,12 @@ RULE = ("A: explicit-state BFS to closure over (FILTERS,_CACHE) of a fixed graph
         "(forced hashes); stream() before and after load; two writes and two collections per host case; glob_file / "
         "foreach_collect / foreach_execute content per file; shell/grep/format glue characters; white space (filters with leading / trailing blank or tab, lines with "
         "trailing blanks / tabs, blank-only lines, a CRLF line; kept lines compared with the original lines exactly); "
-        "filtering switched off; the truncated read of extra-huge files (MAX_CONTENT_SIZE "
+        "filtering switched off; the customer's exclude patterns (file-content redaction, plain and regex form, handed to the "
+        "Cleaner constructor) x budgeted filter sets x every content of <= 4/5 lines over {a,b,ab,ax,bx,abx,x,c,''} through the "
+        "cleaner's allow-list (once; twice on one cleaner and with no_redact for <= 3 lines) and <= 2/3 lines through host collections with real "
+        "grep and write(): the cleaned content is judged by the same clauses against the lines the redaction leaves (a removed "
+        "line uses no budget up), non-trivial when the redaction removed a line containing a filter and something was kept; "
+        "the truncated read of extra-huge files (MAX_CONTENT_SIZE "
         "configured to every value from 0 to size+1 bytes for contents of <= 3 lines over {a,b,\u00e9a,c\u00e9,-a,c,''}); non-trivial when the real output kept at "
         "least one line and dropped at least one line")
 ASSUMPTIONS = [
@@ -90,7 +103,11 @@ BOUNDS = {
               "history_multi": "two-points-under-one-parser graph: closure for {a,b} x {default} (adds on SA,SB,PAB,CAB,IA) "
                                "and for {a,b} x {1,default} (adds on SA,SB,PAB,CAB)",
               "content_max_lines": 4, "filter_sets": 46, "repeated_load_max_lines": 3, "host_max_lines": 2,
-              "host_filter_sets": 16},
+              "host_filter_sets": 16,
+              "redaction": "7 budgeted filter sets x 4 exclude-pattern configurations (plain / regex, one sharing a string with a "
+                           "filter) x contents <= 4 lines over a 9-symbol alphabet through the cleaner (once; twice and with "
+                           "no_redact <= 3 lines); 8 of the 28 combinations x contents <= 2 lines through host collection",
+              "redact_max_lines": 4, "redact_host_max_lines": 2},
     "thorough": {"history": "closure for patterns {a,b} x budgets {1,2,default}",
                  "history_nested": "closure for patterns {a,b} x budgets {1,2,default} on the first_of graph",
                  "history_shapes": "6 generated shapes, closures for {a} x {1,2,default} and {a,b} x {default}",
@@ -102,7 +119,10 @@ BOUNDS = {
                  "history_multi": "two-points-under-one-parser graph: closure for {a,b} x {1,2,default} (adds on "
                                   "SA,SB,PAB,CAB,IA)",
                  "content_max_lines": 5, "filter_sets": 153, "repeated_load_max_lines": 3, "host_max_lines": 3,
-                 "host_filter_sets": 22},
+                 "host_filter_sets": 22,
+                 "redaction": "7 budgeted filter sets x 4 exclude-pattern configurations x contents <= 5 lines through the cleaner "
+                              "(once; twice and with no_redact <= 3 lines); all 28 combinations x contents <= 3 lines through host collection",
+                 "redact_max_lines": 5, "redact_host_max_lines": 3},
 }
 CAP_S = {"quick": 300, "thorough": 3000}
 
@@ -1410,9 +1430,49 @@ def _surviving(lines):
     return parts[1:]
 
 
+# The customer's file-content redaction (exclude patterns) configured for the running case: None, {"plain": [strings]}
+# (a line containing one of the strings is removed) or {"regex": [expressions]} (a line one of them is found in is removed;
+# expressions without POSIX classes, so python's re decides).  It is CONFIGURATION handed to the public Cleaner constructor
+# in the documented rm_conf form, for a group of cases.
+_REDACT = [None]
+
+
+@contextlib.contextmanager
+def _redaction(conf):
+    _REDACT[0] = conf
+    try:
+        yield
+    finally:
+        _REDACT[0] = None
+
+
+def _is_redacted(line, conf):
+    import re
+    if not line or not conf:
+        return False
+    if "regex" in conf:
+        return any(re.search(p, line) for p in conf["regex"])
+    return any(p in line for p in conf["plain"])
+
+
+def _after_redaction(lines):
+    """The lines the configured redaction leaves ("Redaction ... is a must-be-done operation to all the collected specs";
+    the cleaner documents the order Redact, Filter, Obfuscate): what a cleaned content is judged against.  A line removed
+    by the redaction is not part of the content, so it can neither be "the last line matching a filter" nor use a match
+    budget up - the budget clause counts KEPT lines only.  Without a configured redaction: the very same list object."""
+    conf = _REDACT[0]
+    if not conf:
+        return lines
+    return [l for l in lines if not _is_redacted(l, conf)]
+
+
 def _new_cleaner():
     from insights.cleaner import Cleaner
-    c = Cleaner(None, None, fqdn="c07host.example.test")
+    conf = _REDACT[0]
+    rm_conf = None
+    if conf:
+        rm_conf = {"patterns": {"regex": list(conf["regex"])} if "regex" in conf else list(conf["plain"])}
+    c = Cleaner(None, rm_conf, fqdn="c07host.example.test")
     return c
 
 
@@ -1471,9 +1531,9 @@ def _provider_stages(fx, prov, lines, tag="", stream=False, again=False):
             prov.write(dst)
             with open(dst) as fh:
                 data = fh.read()
-            stages.append((name + tag, lines, data.split("\n") if data else [], None))
+            stages.append((name + tag, _after_redaction(lines), data.split("\n") if data else [], None))
         except (ContentException, CalledProcessError) as ex:
-            stages.append((name + tag, lines, [], _short(fx, ex)))
+            stages.append((name + tag, _after_redaction(lines), [], _short(fx, ex)))
     return stages
 
 
@@ -1554,6 +1614,8 @@ def _features(path, flts, stage, out):
         feats["filter_contains_newline"] = True
     if _LIMIT[0] is not None:
         feats["content_limit_configured"] = True
+    if _REDACT[0]:
+        feats["redaction_configured"] = "regex" if "regex" in _REDACT[0] else "plain"
     return feats
 
 
@@ -1566,7 +1628,10 @@ def _observe(fx, path, lines, cleaner, flts):
             return [("output", src, p.content, None)]
         return [("output", src, p.content, None), ("stream-after-load", src, list(p.stream()), None)]
     if path == "cleaner":
-        return [("output", lines, _obs_cleaner(fx, cleaner, lines), None)]
+        return [("output", _after_redaction(lines), _obs_cleaner(fx, cleaner, lines), None)]
+    if path == "cleaner-noredact":          # what _clean_content passes for a spec declared no_redact=True
+        return [("output", lines, cleaner.clean_content(list(lines), no_redact=True,
+                                                        allowlist=fx.filters.get_filters(fx.comp["I2"], True)), None)]
     if path == "apply":
         return [("output", lines, _obs_apply(fx, lines), None)]
     if path == "archive-load-twice":        # same registration, the file is loaded a second time
@@ -1574,7 +1639,7 @@ def _observe(fx, path, lines, cleaner, flts):
         return [("second", _surviving(lines), _obs_archive(fx, lines), None)]
     if path == "cleaner-twice":
         _obs_cleaner(fx, cleaner, lines)
-        return [("second", lines, _obs_cleaner(fx, cleaner, lines), None)]
+        return [("second", _after_redaction(lines), _obs_cleaner(fx, cleaner, lines), None)]
     if path == "archive-stream":            # stream() of a provider whose content was never loaded
         return [("output", _surviving(lines), list(_archive_provider(fx, lines).stream()), None)]
     if path == "archive-glob":
@@ -1582,7 +1647,8 @@ def _observe(fx, path, lines, cleaner, flts):
     return _obs_host(fx, path, lines, flts)
 
 
-PATH_TRIPLE = {"archive-load": "archive", "cleaner": "archive", "apply": "archive", "archive-load-twice": "archive",
+PATH_TRIPLE = {"archive-load": "archive", "cleaner": "archive", "cleaner-noredact": "archive", "apply": "archive",
+               "archive-load-twice": "archive",
                "cleaner-twice": "archive", "archive-stream": "archive", "archive-glob": "archive-glob",
                "host-file": "host-file", "host-cmd": "host-cmd", "host-glob": "host-glob",
                "host-foreach-collect": "host-foreach-collect", "host-foreach-execute": "host-foreach-execute"}
@@ -1635,12 +1701,12 @@ def _report(res, clause, case, exp, obs, feats):
 
 
 def check_content(case):
-    """case = {"part":"content","path":..,"lines":[..],"filters":[filter descriptor]}"""
+    """case = {"part":"content","path":..,"lines":[..],"filters":[filter descriptor][,"max_content_size":n][,"redact":conf]}"""
     fx = _fx()
     _mkroot(fx)
     try:
         _register(fx, PATH_TRIPLE[case["path"]], case["filters"])
-        with _content_limit(case.get("max_content_size")):
+        with _content_limit(case.get("max_content_size")), _redaction(case.get("redact")):
             out, v = _judge_path(fx, case["path"], list(case["lines"]), case["filters"], _new_cleaner())
         return [v] if v else []
     finally:
@@ -1826,6 +1892,89 @@ def explore_host(unit, tier, res):
             contents = list(enumx.shard(host_contents(tier), unit["shard"], unit["of"]))
             _explore_host_cases(fx, res, ["host-file", "host-cmd"], flts, contents)
             res.samples.append({"part": "content", "path": "host-cmd", "lines": ["-a", "c", "xa"], "filters": flts})
+    finally:
+        _reset_tables(fx)
+        _rmroot(fx)
+
+
+# redaction x filtering: the customer's exclude patterns remove lines of a filtered spec during the same cleaning pass.
+# Line alphabet: for each of the filters a / b a line the redaction leaves and one it removes, a line with both filters
+# (kept / removed), a removed line without a filter, a line without a filter, the empty line.
+SIGMA_R = ["a", "b", "ab", "ax", "bx", "abx", "x", "c", ""]
+REDACT_CONFS = [{"plain": ["x"]}, {"regex": ["[ab]x$"]}, {"plain": ["x", "b"]}, {"regex": ["^b", "a.*x"]}]
+REDACT_SETS = [[["a", 1, "point"]], [["a", 2, "impl"]], [["a", 1, "point"], ["b", 1, "parser"]],
+               [["a", 2, "parser"], ["b", 1, "impl"]], [["a", 1, "impl"], ["b", 2, "point"]], [["a", None, "point"]],
+               [["ab", 1, "point"], ["a", 2, "parser"]]]
+REDACT_CLEANER_PATHS = ("cleaner", "cleaner-twice", "cleaner-noredact")
+
+
+def redact_combos(tier, host=False):
+    combos = [(si, ci) for si in range(len(REDACT_SETS)) for ci in range(len(REDACT_CONFS))]
+    if host and tier == "quick":
+        combos = [(0, 0), (2, 1), (3, 2), (4, 3), (1, 0), (6, 1), (5, 2), (0, 3)]
+    return combos
+
+
+def _redact_alphabet_guard():
+    """Every configuration removes a line that contains a filter and leaves one (otherwise the dimension is empty), and
+    differs from every other configuration on the alphabet."""
+    seen = {}
+    for conf in REDACT_CONFS:
+        gone = tuple(l for l in SIGMA_R if _is_redacted(l, conf))
+        if not any("a" in l for l in gone) or not any("a" in l and l not in gone for l in SIGMA_R) or "" in gone:
+            raise RuntimeError("redaction configuration %r is vacuous on the line alphabet" % (conf,))
+        if gone in seen:
+            raise RuntimeError("redaction configurations %r and %r coincide on the line alphabet" % (conf, seen[gone]))
+        seen[gone] = conf
+
+
+def explore_redact(unit, tier, res):
+    """Every content of <= L lines over SIGMA_R under one (budgeted filter set, exclude-pattern configuration): through
+    the cleaner's allow-list with a Cleaner built from that configuration (once, twice on one long-lived cleaner, and
+    with no_redact=True, where nothing is removed), or - host units - through real host collections (grep pre-filter;
+    write() with that cleaner, twice; a second collection).  Cleaned contents are judged by the SAME declarative clauses
+    against the lines the redaction leaves."""
+    fx = _fx()
+    _redact_alphabet_guard()
+    flts = REDACT_SETS[unit["set"]]
+    conf = REDACT_CONFS[unit["conf"]]
+    host = bool(unit.get("host"))
+    if host:
+        L = BOUNDS[tier]["redact_host_max_lines"]
+        paths = ("host-file", "host-cmd")
+    else:
+        L = BOUNDS[tier]["redact_max_lines"]
+        paths = REDACT_CLEANER_PATHS
+    flt_keys = [f for f, _, _ in _flat(flts)]
+    _mkroot(fx)
+    try:
+        with _redaction(conf):
+            cleaner = _new_cleaner()
+            snaps = {}
+            for t in enumx.shard(enumx.strings(SIGMA_R, L), unit["shard"], unit["of"]):
+                lines = list(t)
+                hit = any(_is_redacted(l, conf) and any(f in l for f in flt_keys) for l in lines)
+                for path in paths:
+                    if path in ("cleaner-twice", "cleaner-noredact") and len(lines) > TWICE_MAX_LINES:
+                        continue
+                    tr = PATH_TRIPLE[path]
+                    if tr not in snaps:
+                        _register(fx, tr, flts)
+                        snaps[tr] = _snapshot_tables(fx)
+                    _restore_tables(fx, snaps[tr])
+                    out, v = _judge_path(fx, path, lines, flts, cleaner)
+                    res.evals += 1
+                    if host:
+                        res.stat("real_grep_cases")
+                    if out is not None:
+                        # non-trivial: the redaction removed a line that matches a filter and something was kept
+                        if hit and out and path != "cleaner-noredact":
+                            res.nontrivial += 1
+                        res.outcomes.add("redact:%s:%s:%d" % (path, "hit" if hit else "nohit", min(len(out), 4)))
+                    if v:
+                        _report(res, v[0], {"part": "content", "path": path, "lines": lines, "filters": flts,
+                                            "redact": conf}, v[1], v[2], v[3])
+        res.samples.append({"part": "content", "path": paths[0], "lines": ["a", "ax"], "filters": flts, "redact": conf})
     finally:
         _reset_tables(fx)
         _rmroot(fx)
@@ -2070,6 +2219,13 @@ def units(tier, seed):
     for si in range(len(host_filter_sets(tier))):
         for j in range(kh):
             us.append({"part": "host", "set": si, "shard": j, "of": kh})
+    kr = 1 if tier == "quick" else 4
+    for si, ci in redact_combos(tier):
+        for j in range(kr):
+            us.append({"part": "redact", "set": si, "conf": ci, "shard": j, "of": kr})
+    for si, ci in redact_combos(tier, host=True):
+        for j in range(kr):
+            us.append({"part": "redact", "set": si, "conf": ci, "host": True, "shard": j, "of": kr})
     for si in range(len(HUGE_SETS)):
         us.append({"part": "huge", "set": si})
     for si in (1, 2):
@@ -2085,7 +2241,7 @@ def units(tier, seed):
 def unit_weight(u):
     if u["part"] == "history":
         return 100 if len(u["patterns"]) * len(u["budgets"]) > 4 else 50
-    return {"host": 3, "content": 2}.get(u["part"], 1)
+    return {"host": 3, "content": 2, "redact": 3}.get(u["part"], 1)
 
 
 # ---------------------------------------------------------------------------------------------
@@ -2159,6 +2315,8 @@ def run_unit(unit, tier):
         explore_glue(res, "blank")
     elif part == "huge":
         explore_huge(unit, tier, res)
+    elif part == "redact":
+        explore_redact(unit, tier, res)
     elif part == "disabled":
         sets = [[], [["a", 1, "point"]], [["a", None, "impl"], ["b", 1, "parser"]]]
         for flts in sets:
@@ -2221,11 +2379,17 @@ LEVEL_TEXT = ("Histories: the reachable (FILTERS,_CACHE) state space of a fixed 
               "overlapping and empty lines) x 46 / 153 budgeted filter sets through post-filter on load, the cleaner's "
               "allow-list and apply_filters, and <= 2 / <= 3 lines x 16 / 22 sets through real host collection "
               "(grep -F, stream(), write() twice, a second collection); registration order / place / duplicate / set-order "
-              "descriptors, multi-file factories, glue characters and the disabled gate on short contents. 'No counterexample within the bound', nothing more.")
+              "descriptors, multi-file factories, glue characters and the disabled gate on short contents; filtering crossed with the customer's "
+              "exclude patterns (7 budgeted sets x 4 plain / regex configurations x contents <= 4 / <= 5 lines through the cleaner, "
+              "<= 2 / <= 3 lines through host collections), the cleaned content judged against the lines the redaction leaves. "
+              "'No counterexample within the bound', nothing more.")
 LEVEL_NOTE = ("Trusted: the fixture's declared graph (checked against the dr registries), the 40-line reference model "
               "(cross-checked against a second formulation transcribed from the statement on every discovered state), the "
               "declarative content judge (validated against the documented algorithm and five known-wrong outputs on every "
               "run). Budgets across components: weaker reading (any contributing component's "
-              "budget; the smallest one for the content clauses). Nine graph shapes (three hand-written, six generated), not all "
+              "budget; the smallest one for the content clauses). Redaction: the statement does not mention it; the cleaner documents "
+              "it as a must-be-done step ordered before the filter, so on the cleaning paths the statement's 'original lines' are "
+              "read as the lines the redaction leaves (that a line with an exclude pattern IS removed is C08's claim, here only the "
+              "reference of what is left). Nine graph shapes (three hand-written, six generated), not all "
               "shapes; container factories, first_file / command_with_args content, runtime toggling of the ENABLED gate with a "
               "warm cache and loads() of a document that differs from dumps() are not covered.")
